@@ -57,6 +57,9 @@ MonStim(M, s) ==
          [M1 EXCEPT !.acc = {x \in @ : x.cid # s.c}]
     [] OTHER -> M1
 
+\* the transport a call was made on ("t" when the trace does not say)
+CallTr(c) == IF "tr" \in DOMAIN c THEN c.tr ELSE "t"
+
 \* a call the manager makes on the transport while handling the stimulus
 MonCall(M, c) ==
   CASE c.c \in {"dial", "open"} ->
@@ -64,7 +67,8 @@ MonCall(M, c) ==
          \* transport within the same request, each with its share of the addresses
          IF c.cid \in DOMAIN M.att THEN
               IF c.c = "open" /\ M.newAtt /\ M.att[c.cid].st = "open" /\ "p" \in DOMAIN M.stim /\ M.att[c.cid].peer = M.stim.p
-                THEN [M EXCEPT !.att[c.cid].addrs = @ \o c.addrs]
+                 /\ CallTr(c) \notin M.att[c.cid].trs
+                THEN [M EXCEPT !.att[c.cid].addrs = @ \o c.addrs, !.att[c.cid].trs = @ \cup {CallTr(c)}]
                 ELSE Fail(M, "attempt id reused")
          ELSE IF M.stim.a \notin {"dial", "dial_addr", "hdial", "hdial_addr", "probe"} THEN Fail(M, "dial without request")
          ELSE \* a fresh attempt for a tainted peer shows the peer is not wedged: trust it again,
@@ -73,7 +77,7 @@ MonCall(M, c) ==
                   old == [d \in DOMAIN M.att |->
                             IF Tainted(M, p) /\ M.att[d].peer = p /\ M.att[d].st \in {"open", "cancelled"}
                               THEN [M.att[d] EXCEPT !.st = "reported"] ELSE M.att[d]] IN
-              [M EXCEPT !.att = (c.cid :> [st |-> "open", peer |-> p, addrs |-> c.addrs, by |-> -1]) @@ old,
+              [M EXCEPT !.att = (c.cid :> [st |-> "open", peer |-> p, addrs |-> c.addrs, by |-> -1, trs |-> {CallTr(c)}]) @@ old,
                         !.newAtt = TRUE, !.taint = @ \ {p}]
     [] c.c = "cancel" ->
          IF c.cid \in DOMAIN M.att /\ M.att[c.cid].st = "open"
